@@ -187,10 +187,29 @@ std::vector<std::vector<double>> Import_Table(std::string filepath, std::vector<
 			data_aux.push_back(x);
 		inputfile.close();
 
-		unsigned int rows	 = Count_Lines(filepath) - ignored_initial_lines;
+		// The rows are the lines after the ignored ones, up to the last line that is not blank (Export_Table never writes blank lines
+		// at the end, but a file written by another tool or by hand often ends with them).
+		unsigned int rows = 0;
+		{
+			std::ifstream linefile(filepath);
+			std::string line;
+			unsigned int lines = 0;
+			for(unsigned int i = 0; i < ignored_initial_lines && std::getline(linefile, line); i++) {}
+			while(std::getline(linefile, line))
+			{
+				lines++;
+				if(line.find_first_not_of(" \t\r\v\f") != std::string::npos)
+					rows = lines;
+			}
+		}
 		if(rows == 0)	// A file without lines (after the ignored ones) is an empty table.
 			return std::vector<std::vector<double>>();
 		unsigned int columns = data_aux.size() / rows;
+		if(data_aux.size() != static_cast<std::size_t>(rows) * columns)
+		{
+			std::cerr << "Error in libphysica::Import_Data(" << filepath << "): The " << data_aux.size() << " entries do not fill " << rows << " rows of equal length (ragged table, blank line between rows, or an entry that is not a number)." << std::endl;
+			std::exit(EXIT_FAILURE);
+		}
 		if(!dimensions.empty() && dimensions.size() != columns)
 		{
 			std::cerr << "Error in libphysica::Import_Data(): Column length and dimension length do not match." << std::endl;
